@@ -41,6 +41,7 @@ class Net:
         self.udp_log = []  # (t, src, dst, data, fate)
         self.udp_latency = 0.0
         self.tls_log = []
+        self.spins = []  # connection indices on which a reader spun after EOF
 
     def count(self, kind, n=1):
         self.fault_counts[kind] = self.fault_counts.get(kind, 0) + n
@@ -206,6 +207,12 @@ class SimSocket:
             if rx.reset:
                 raise ConnectionResetError(104, 'sim: connection reset by peer')
             if not rx.chunks and rx.closed:
+                # count reads after EOF: a reader that spins on b'' never reaches a scheduling point
+                self._eof_reads = getattr(self, '_eof_reads', 0) + 1
+                if self._eof_reads > 20000:
+                    NET.spins.append(self.conn.idx)
+                    NET.count('eof_spin')
+                    raise OSError(5, 'sim: reader keeps reading after EOF (spin detected)')
                 return b''
             if self._really_closed:
                 raise OSError(9, 'Bad file descriptor')
